@@ -1,6 +1,48 @@
 SPEC = {
     "id": "C08",
     "components": [
-        {"comp": "sim_c08", "module": "QV.Sys.MonC08", "quick": 80, "thorough": 2000},
+        {"comp": "idle_negotiate", "module": "QV.Model.Lifecycle", "quick": 300, "thorough": 20000},
+        {"comp": "sim_c08", "module": "QV.Sys.MonC08", "quick": 150, "thorough": 2000},
+        {"comp": "sim_c08_model", "module": "QV.Sys.MonLifecycle", "quick": 150, "thorough": 2000},
     ],
+    "assumptions": [
+        "the lifecycle model takes the PTO, the key/space situation, anti-amplification, the congestion/pacing gate, pending stream events and the classification of every received packet as inputs; the theorems hold for all of them",
+        "LossDetection / KeyDiscard / PathValidation / Pacing / PushNewCid / MaxAckDelay timers are not modelled (a KeyDiscard deadline may outlive Drained; it produces no output)",
+        "the endpoint forgetting a drained connection (routing tables) is C09's model; here only open_connections and zombie activity are checked on traces (MonC08)",
+    ],
+}
+
+MANIFEST = {
+    "text": ("Proved in Coq for ALL operation sequences of the lifecycle model coq/Model/Lifecycle.v (State, close flag, error, "
+             "Drained queue, Close/Idle/KeepAlive timers, permit_idle_reset, idle-timeout negotiation; operations close(), "
+             "handle_packet by packet outcome, handle_timeout, poll, poll_endpoint_events, poll_transmit close branch incl. the "
+             "PacketBuilder confidentiality-limit paths), with every environment input arbitrary: ConnectionLost is reported at most "
+             "once, never after a local close, and with the peer's code (C08_lost_reported_at_most_once_except_known, "
+             "C08_never_lost_after_local_close, C08_peer_close_reported_with_its_code); Drained events emitted + queued = 1 iff the "
+             "state is Drained, Drained is final (C08_drained_once, C08_drained_is_final); entering Closed/Draining arms Timer::Close "
+             "at exactly t + 3 PTO, nothing moves it, its expiry drains (C08_close_timer_bounds_drain); after Drained no timer, no "
+             "transmit, no effect of handle_timeout (C08_after_drain_silence); TimedOut only at/after the Idle deadline, every armed "
+             "Idle deadline is >= idle timeout after every accepted packet, it only ever moves to instant + max(idle, 3 PTO) on an "
+             "accepted packet or the first ack-eliciting send after one, a fed connection does not time out "
+             "(C08_timed_out_only_at_deadline, C08_idle_window_lower/upper, C08_fed_connection_never_times_out); while no idle timeout is negotiated the Idle timer is not armed and TimedOut is never reported (C08_no_negotiated_timeout_no_idle_timer, C08_timed_out_needs_negotiated_timeout - true of the code since the stale-idle-timer repair, C08_stale_idle_timer_refuted_before_fix is the witness on the code as found); "
+             "negotiate_max_idle_timeout laws (C08_negotiate_idle_laws); the close packet follows close() at once whatever the "
+             "congestion/pacing gate, announcing the code in 1-RTT and APPLICATION_ERROR before (C08_local_close_announced_at_once). "
+             "Main theorems are stated as forall h, ~KnownClass h -> ...; the known class (error result of packet processing "
+             "arriving while already closed: known finding lost-after-local-close) is proved real by vm_compute witnesses "
+             "(C08_lost_after_local_close_refuted, C08_drained_twice_refuted_in_known_class), as is the pre-repair F1 gate "
+             "(C08_local_close_announced_refuted_before_fix). "
+             "Tie to the code (sampling): MonLifecycle runs that same model alongside every real connection of simulator traces and "
+             "rejects any probe (state, close flag, error recorded, permit_idle_reset, Close/Idle/KeepAlive deadlines) or "
+             "ConnectionLost/Drained delivery the model cannot produce; MonC08 checks the observable conclusions directly "
+             "(once-only events, drain within the armed deadline, silence of drained connections, open_connections, close announced "
+             "by the next poll); negotiate_max_idle_timeout is tied by differential correspondence through a hook."),
+    "note": ("Trace-validated only, not proved: that poll() delivers no stream data after close (stream events are an input of the "
+             "model); that the endpoint forgets the connection (open_connections, no zombie activity); the abstraction of packets into "
+             "outcomes. C08_idle_window_lower needs the premise stable_run (no transport-parameter update enlarges the timeout of an "
+             "armed Idle timer): it can fail only for a 0-RTT client whose remembered peer max_idle_timeout differs from the real one "
+             "(reset_idle_timeout never recomputes or stops an armed timer when idle_timeout changes or becomes None) - a suspected "
+             "defect shown on the model (C08_stale_idle_timer_model_witness), not reproduced on the real code because the simulator "
+             "cannot change the server's idle timeout between ticket and resumption. KnownClass also excludes the confidentiality "
+             "limit being exceeded while the close packet is built (> 2^23 packets under handshake keys). Trusted: Coq kernel + "
+             "vm_compute, the hand-written model, the extracted monitors + OCaml driver, simulator, hooks, python driver. No axioms."),
 }
